@@ -238,6 +238,15 @@ EXPECT = {
 }
 
 
+# functions of which only the FIRST statements are constrained (the remainder may change freely): the routing of the binary numpy functions in
+# Staircase.__array_ufunc__ (the later statements dispatch the unary functions one by one)
+EXPECT_PREFIX = {
+ "pbox_abc.Staircase.__array_ufunc__": [["self", "ufunc", "method"], [
+   "if method != '__call__':\n    return NotImplemented",
+   "binary_ops = {np.add: ('__add__', '__radd__'), np.subtract: ('__sub__', '__rsub__'), np.multiply: ('__mul__', '__rmul__'), np.true_divide: ('__truediv__', '__rtruediv__')}",
+   "if ufunc in binary_ops and len(inputs) == 2 and (not kwargs):\n    forward, reflected = binary_ops[ufunc]\n    if isinstance(inputs[0], Staircase):\n        return getattr(inputs[0], forward)(inputs[1])\n    return getattr(self, reflected)(inputs[0])",
+ ]],
+}
 FILES = {"utils": "pba/utils.py", "constructors": "pba/constructors.py", "pbox_abc": "pba/pbox_abc.py"}
 
 GALLINA = r"""
@@ -280,6 +289,10 @@ Definition gen_ppow (powf : N -> N -> N) (route0 : pb -> N -> res pb) (p : pb) (
   if nltb N c nzero && (nleb N (nth0 N (fst p) 0) nzero && nleb N nzero (lastn N (snd p))) then Raise ZeroDivision
   else if nltb N (minl N (fst p)) nzero && nltb N nzero (maxl N (snd p)) then route0 p c
   else gen_pnum powf p c.
+(* Staircase.__array_ufunc__, np.add / subtract / multiply / true_divide with two inputs: when the FIRST input is a p-box, its forward operator is
+   applied to the second input - whichever of the two objects numpy handed the call to (the second one when it is of a subclass); otherwise (a numpy
+   scalar on the left) the reflected operator of the p-box *)
+Definition gen_ufunc_route (first_is_pbox : bool) : ufunc_route := if first_is_pbox then ForwardOfFirst else ReflectedOfSelf.
 (* Staircase._unary_template: f(left), f(right) (arrays) *)
 Definition gen_punary (f : N -> N) (p : pb) : res pb := gen_mk_staircase_gen false (map f (fst p)) (map f (snd p)).
 (* Staircase.env: np.minimum(left, left'), np.maximum(right, right') (arrays) *)
@@ -341,6 +354,14 @@ def translate(pkg):
                 k = next((i for i, (a, b) in enumerate(zip(got[name][1], exp[1])) if a != b), min(len(got[name][1]), len(exp[1])))
                 what = got[name][1][k] if k < len(got[name][1]) else "(statement missing)"
                 raise Unsupported(f"{mod}.{name}: " + ("signature " + str(got[name][0]) if got[name][0] != exp[0] else "statement " + what[:100].replace(chr(10), " / ")))
+    for key, exp in EXPECT_PREFIX.items():
+        mod, name = key.split(".", 1)
+        got = bodies(os.path.join(pkg, FILES[mod]), {name})
+        if name not in got:
+            raise Unsupported(f"{key} not found")
+        k = len(exp[1])
+        if got[name][0] != exp[0] or normalise(got[name][0], got[name][1][:k]) != normalise(exp[0], exp[1]):
+            raise Unsupported(f"{key}: the first {k} statements (routing of the binary numpy functions) have changed")
     return ("(* generated by tools/translate_ctor.py from " + ", ".join(os.path.join(pkg, r) for r in FILES.values()) + "; do not edit *)\n"
             "From Coq Require Import List Bool ZArith Arith.\nFrom PUN Require Import Base.Num Base.Sort Model.Interval Model.Pbox.\nImport ListNotations.\n" + GALLINA)
 
